@@ -38,3 +38,6 @@ PROBES = list(PROBES) + ["multi-gigabyte-sparse-stream", "position-beyond-2^31",
 RULE = RULE + (" Round 9: 3% of runs use multi-gigabyte SPARSE streams (2-3 files of 0.5-4 GiB on tmpfs, data only in 384-byte windows around file boundaries, 2^31, 2^32, 3*2^31; "
                "the byte model is a function of the offset), with seeks, counted/buffer reads and read_block placed there; header key order / optional keys varied; symlinked observations.")
 ASSUMPTIONS = list(ASSUMPTIONS) + ["an integer argument is handed over as np.int32 only when the value fits 32 bits (otherwise as np.int64): a caller's 32-bit scalar cannot hold it"]
+
+# dimensions added in seeded round 10
+RULE = RULE + " Round 10: a fifth of the small file sets first hold an earlier recording of exactly the same byte size with a 4-byte longer header at the same paths (opened, read, dropped); free-text header strings of 0-700 characters in 12% of the sets."
